@@ -129,6 +129,10 @@ def r20_2(prog: Program, rep: Report, cls):
     # entry guard: the node's own operator is BitOr
     own = all(any(T.is_call_to(g, "builtins.isinstance") and g[2] == (("attr", NODE, "op"), ("ref", "ast.BitOr")) and pol for g, pol in p.guards()) for p in rew)
     rep.check(own, "R20.2", m.qualname, m.loc, "only BitOr nodes are rewritten into a union", "a BinOp whose operator is not `|` can be rewritten into a union", detail="own-operator")
+    # ... and every one of them: no exit hands a `|` node back in some other form
+    is_own = lambda g: T.is_call_to(g, "builtins.isinstance") and g[2] == (("attr", NODE, "op"), ("ref", "ast.BitOr"))  # noqa: E731
+    kept = [p for p in ps if p.exit[0] == "return" and p not in rew and any(is_own(a) and pol for a, pol in T.derive_atoms(p.guards()))]
+    rep.check(not kept, "R20.2", m.qualname, m.loc, "every node whose operator is `|` leaves as a union subscript", f"an exit of visit_BinOp returns a `|` node without rewriting it ({T.show(kept[0].exit[1])[:50] if kept else ''}): for the annotations that take it the PEP 604 union stays in the output -- `'Node' | None` is still `'Node' | None`", detail="every-bitor")
     # descent guard
     whiles = [e for p in rew for e in p.events if e[0] == "while" and e[2] == 1]
     ok_desc = bool(whiles)
